@@ -1,5 +1,5 @@
 import sys, importlib, time, json
-sys.path.insert(0,'/verif')
+import os; sys.path.insert(0, os.path.dirname(os.path.dirname(os.path.abspath(__file__))))
 prop=sys.argv[1]
 only=sys.argv[2:] 
 m=importlib.import_module('proofs.'+prop.lower())
